@@ -447,7 +447,9 @@ def oracles(ctx, deep):
                 elif exact:
                     good = torch.equal(want, w)
                 else:
-                    good = bool(torch.allclose(want, w, rtol=2e-4, atol=2e-5 * max(float(want.abs().max()), 1e-30)))
+                    # float32 rounding; an SVD (coil compression) in the chain amplifies it by an order of magnitude
+                    tol = 10.0 if c["compress"] else 1.0
+                    good = bool(torch.allclose(want, w, rtol=2e-4 * tol, atol=2e-5 * tol * max(float(want.abs().max()), 1e-30)))
                 if not good:
                     add(Violation("scale-equivariant", "multiplying the raw k-space by %g changes output %s (%s comparison; max diff %.3g)" % (factor, ks, "bit-exact" if exact else "1e-4 relative", float((want.float() - w.float()).abs().max())), {"config": short, "factor": factor, "key": ks}, {"kind": "value", "key": ks}))
         # self-consistency of the outputs
